@@ -37,6 +37,14 @@ Definition kkt_ok (UtM UtU : qmat) (n : nat) (l1 l2 eps t : Q) (V : qmat) : bool
   mall (fun v => qle eps v) V && mall (fun x => qle (Qopp t) x) g &&
   mall (fun x => qle (qabs x) t) (mmap2 (fun v gg => qmul (qsub v eps) gg) V g).
 
+(* a stopping decision `e < t` is numerically clear-cut when |e - t| > 1e-6 (|e| + |t|): then float64 and exact
+   arithmetic take the same branch on these well-conditioned 1-4 iteration runs, and the implementation must
+   return the model's result; otherwise (borderline, incl. e = t = 0) any prefix iterate is accepted *)
+Definition margin : Q := 1 # 1000000.
+Definition clear_dec (d : Q * Q) : bool :=
+  negb (qle (qabs (qsub (fst d) (snd d))) (qmul margin (qadd (qabs (fst d)) (qabs (snd d))))).
+Definition all_clear (ds : list (Q * Q)) : bool := forallb clear_dec ds.
+
 Definition optq (o : option Q) : Q := match o with Some x => x | None => 0%Q end.
 
 Inductive case :=
@@ -72,13 +80,15 @@ Definition agree (c : case) : bool :=
   | CHals _ UtM UtU n V0 sol iters tol o impl0 impl =>
     let start_ok := match V0 with Some _ => true | None => mclose atol rtol (hals_init Qops UtM UtU n sol) impl0 end in
     let V := match V0 with Some V => V | None => impl0 end in
-    match hals_nnls Qops UtM UtU n (Some V) sol iters tol o, impl with
-    | Err, Err => true
-    | Ok M, Ok (Some W) =>
-      (* the returned point is the model's result, or at least one of the model's iterates (the number of passes
-         taken is incidental: the stopping test compares rounded quantities) *)
-      start_ok && (mclose atol rtol M W || existsb (fun X => mclose atol rtol X W) (iterates iters (hals_pass Qops UtM UtU n o) V))
-    | _, _ => false
+    (* hals_nnls = Err if hals_rejects, else Ok (snd (hals_trace ...)): Proofs.NnlsProofs.hals_nnls_trace *)
+    if hals_rejects Qops UtM UtU iters o then match impl with Err => true | _ => false end
+    else match impl with
+    | Ok (Some W) =>
+      let tr := hals_trace Qops UtM UtU n o tol iters true 0%Q V in
+      (* the returned point is the model's result; only when a stopping decision was borderline, any iterate *)
+      start_ok && (mclose atol rtol (snd tr) W
+                   || (negb (all_clear (fst tr)) && existsb (fun X => mclose atol rtol X W) (iterates iters (hals_pass Qops UtM UtU n o) V)))
+    | _ => false
     end
   | CConv _ which UtM UtU n l1 l2 eps lr V Xstar tstep tkkt tobj =>
     let r := length UtM in
@@ -97,12 +107,14 @@ Definition agree (c : case) : bool :=
     (let f := objective UtM UtU n l1 l2 V in let fs := objective UtM UtU n l1 l2 Xstar in
      qle (qabs (qsub f fs)) (qmul tobj (qadd 1 (qabs fs))))
   | CFista _ UtM UtU n nonneg sp rd lr tol eps x0 betas impl =>
-    (* the returned point is the model's result, or at least one of the model's iterates (the iteration at which the
-       stopping rule fires is incidental; with tol = 0 the model's rule never fires -- C13_fista_tol0_partial -- so
-       `fista ... 0 ... (firstn k betas)` is exactly the k-th iterate) *)
-    mclose atol rtol (fista Qops UtM UtU n nonneg sp rd lr tol eps x0 betas) impl
-    || existsb (fun k => mclose atol rtol (fista Qops UtM UtU n nonneg sp rd lr 0 eps x0 (firstn k betas)) impl)
-               (rev (seq 0 (S (length betas))))
+    (* fista = snd (fista_trace ...) (Proofs.NnlsProofsFista.fista_trace_snd).  The returned point is the model's
+       result; only when a stopping decision was borderline, any iterate of the model (with tol = 0 the model's rule
+       never fires -- C13_fista_tol0_runs_all -- so `fista ... 0 ... (firstn k betas)` is exactly the k-th iterate) *)
+    let tr := fista_trace Qops UtM UtU n nonneg sp rd lr tol eps betas true 0%Q x0 x0 in
+    mclose atol rtol (snd tr) impl
+    || (negb (all_clear (fst tr))
+        && existsb (fun k => mclose atol rtol (fista Qops UtM UtU n nonneg sp rd lr 0 eps x0 (firstn k betas)) impl)
+                   (rev (seq 0 (S (length betas)))))
   | CAset _ Utm UtU x0 iters tol impl =>
     match active_set_nnls Qops (gauss_solve Qops) (fun x => x) Utm UtU tol x0 iters, impl with
     | None, None => true
